@@ -28,6 +28,8 @@ var (
 	RotateBy int32 = 1
 	// SitePerm, when non-nil, maps a site to an explicit permutation (indices into the sorted key list).
 	SitePerm map[string][]int
+	// LenPerm, when non-nil, maps a map length to an explicit permutation applied at every site whose map has that length.
+	LenPerm map[int][]int
 	// Calls counts range statements executed through Seq2.
 	Calls atomic.Int64
 	// Sites records which sites were hit (only when RecordSites is true).
@@ -145,6 +147,8 @@ func Seq2[M ~map[K]V, K comparable, V any](m M, site string) iter.Seq2[K, V] {
 		}
 		if p, ok := SitePerm[site]; ok && len(p) == n {
 			copy(order, p)
+		} else if p, ok := LenPerm[n]; ok && len(p) == n {
+			copy(order, p)
 		} else {
 			switch atomic.LoadInt32(&Policy) {
 			case Reverse:
@@ -169,4 +173,26 @@ func Seq2[M ~map[K]V, K comparable, V any](m M, site string) iter.Seq2[K, V] {
 			}
 		}
 	}
+}
+
+
+// Permutations returns all permutations of 0..n-1 (n small).
+func Permutations(n int) [][]int {
+	var out [][]int
+	var rec func(cur []int, used []bool)
+	rec = func(cur []int, used []bool) {
+		if len(cur) == n {
+			out = append(out, append([]int{}, cur...))
+			return
+		}
+		for i := 0; i < n; i++ {
+			if !used[i] {
+				used[i] = true
+				rec(append(cur, i), used)
+				used[i] = false
+			}
+		}
+	}
+	rec(nil, make([]bool, n))
+	return out
 }
